@@ -12,6 +12,7 @@ mod kall;
 mod c02;
 mod c04;
 mod c05;
+mod c07;
 mod c14;
 mod c18;
 mod lall;
@@ -42,6 +43,7 @@ fn main() {
                 "KALL" => kall::gen(tier, seed),
                 "C02" => c02::gen(tier, seed),
                 "C14" => c14::gen(tier, seed),
+                "C07" => c07::gen(tier, seed),
                 "C18" => c18::gen(tier, seed),
                 "C05" => c05::gen(tier, seed),
                 _ => {
